@@ -116,3 +116,128 @@ def cert_query(prefix: str, shape: CertShape, oracles: int, family="cert_shape",
     from vcore import Query
     return Query(name=f"{prefix}_{shape.key()}", body=f"    cert::run(&{shape.rust(oracles)});", unwind=700, family=family,
                  shape=shape.describe(), config=shape.config(), stubs=shape.stubs(), functions=CERT_FUNCS, timeout=timeout)
+
+
+O_C07, O_C08 = 64, 128
+
+
+@dataclass(frozen=True)
+class CsrShape:
+    san: tuple = ()
+    ku: int = 0
+    eku: tuple = ()
+    custom: int = 0
+    custom_crit: int = 0
+    attrs: int = 0
+    strlen: int = 2
+    alg: int = 5
+    sign_fails: bool = False
+
+    def rust(self, oracles):
+        b = lambda v: "true" if v else "false"
+        return (f"csr::CsrShape {{ san: {arr(self.san)}, ku: {self.ku}, eku: {arr(self.eku)}, custom: {self.custom}, custom_crit: {self.custom_crit}, "
+                f"attrs: {self.attrs}, strlen: {self.strlen}, alg: {self.alg}, sign_fails: {b(self.sign_fails)}, oracles: {oracles} }}")
+
+    def key(self):
+        parts = []
+        if self.san: parts.append("san" + "".join(str(x) for x in self.san))
+        if self.ku: parts.append(f"ku{self.ku}")
+        if self.eku: parts.append("eku" + "".join(str(x) for x in self.eku))
+        if self.custom: parts.append(f"cx{self.custom}c{self.custom_crit}")
+        if self.attrs: parts.append(f"at{self.attrs}")
+        if self.strlen != 2: parts.append(f"sl{self.strlen}")
+        if self.alg != 5: parts.append(f"a{self.alg}")
+        if self.sign_fails: parts.append("fail")
+        return "_".join(parts) or "empty"
+
+    def describe(self):
+        d = []
+        if self.san: d.append("SAN[" + ",".join(SAN_NAMES[x] for x in self.san) + "]")
+        if self.ku: d.append("KU" + KU_NAMES[self.ku])
+        if self.eku: d.append("EKU[" + ",".join(EKU_NAMES[x] for x in self.eku) + "]")
+        if self.custom: d.append(f"{self.custom} custom ext (critical mask {self.custom_crit:#b})")
+        d.append(f"{self.attrs} caller attribute(s)")
+        d.append(f"strings {self.strlen}B; key alg {ALG_NAMES[self.alg]}")
+        if self.sign_fails: d.append("signer fails")
+        return "CSR: " + "; ".join(d)
+
+
+CSR_FUNCS = ["rcgen::CertificateParams::serialize_request_with_attributes", "rcgen::CertificateParams::write_extension_request_attribute",
+             "rcgen::CertificateParams::{write_key_usage,write_subject_alt_names,write_extended_key_usage}", "rcgen::KeyPair::sign_der",
+             "rcgen::key_pair::serialize_public_key_der", "rcgen::write_x509_extension", "yasna::DERWriter::write_set_of (real)"]
+
+
+def csr_query(prefix, shape: CsrShape, oracles, timeout=1200):
+    from vcore import Query
+    return Query(name=f"{prefix}_csr_{shape.key()}", body=f"    csr::run(&{shape.rust(oracles)});", unwind=700, family="csr_shape",
+                 shape=shape.describe(), config="nocrypto", stubs=S1, functions=CSR_FUNCS, timeout=timeout)
+
+
+REASON_NAMES = ["none", "unspecified", "keyCompromise", "cACompromise", "affiliationChanged", "superseded", "cessationOfOperation",
+                "certificateHold", "removeFromCRL", "privilegeWithdrawn", "aACompromise"]
+
+
+@dataclass(frozen=True)
+class CrlShape:
+    revoked: tuple = ()
+    invalidity: int = 0
+    idp: int = 0
+    idp_uris: int = 1
+    kid: int = 0
+    kid_len: int = 2
+    number_len: int = 2
+    number_b0: int = 1
+    serial_len: int = 2
+    serial_b0: int = 1
+    issuer_ku: int = 0
+    strlen: int = 2
+    ialg: int = 5
+    sign_fails: bool = False
+
+    def config(self):
+        return "ring" if self.kid > 0 else "nocrypto"
+
+    def stubs(self):
+        return S1 + (S2 if self.kid > 0 else [])
+
+    def rust(self, oracles):
+        b = lambda v: "true" if v else "false"
+        return (f"crl::CrlShape {{ revoked: {arr(self.revoked)}, invalidity: {self.invalidity}, idp: {self.idp}, idp_uris: {self.idp_uris}, kid: {self.kid}, "
+                f"kid_len: {self.kid_len}, number_len: {self.number_len}, number_b0: {self.number_b0}, serial_len: {self.serial_len}, "
+                f"serial_b0: {self.serial_b0}, issuer_ku: {self.issuer_ku}, strlen: {self.strlen}, ialg: {self.ialg}, sign_fails: {b(self.sign_fails)}, "
+                f"oracles: {oracles} }}")
+
+    def key(self):
+        parts = ["r" + "".join(f"{x:x}" for x in self.revoked) if self.revoked else "r"]
+        if self.invalidity: parts.append(f"inv{self.invalidity}")
+        if self.idp: parts.append(f"idp{self.idp}u{self.idp_uris}")
+        parts.append(f"k{self.kid}l{self.kid_len}")
+        parts.append(f"n{self.number_len}b{self.number_b0:02x}")
+        if self.revoked: parts.append(f"s{self.serial_len}b{self.serial_b0:02x}")
+        if self.issuer_ku: parts.append(f"iku{self.issuer_ku}")
+        if self.ialg != 5: parts.append(f"a{self.ialg}")
+        if self.sign_fails: parts.append("fail")
+        return "_".join(parts)
+
+    def describe(self):
+        d = [f"{len(self.revoked)} revoked [" + ",".join(REASON_NAMES[x] + ("+invalidityDate" if self.invalidity >> i & 1 else "") for i, x in enumerate(self.revoked)) + "]"]
+        d.append(["no IDP", "IDP no scope", "IDP userCerts", "IDP caCerts"][self.idp] + (f" {self.idp_uris} URI" if self.idp else ""))
+        d.append(f"key id {KID_NAMES[self.kid]}" + (f"({self.kid_len}B)" if self.kid == 0 else ""))
+        d.append(f"CRL number {self.number_len}B first={self.number_b0:#04x}")
+        if self.revoked: d.append(f"serials {self.serial_len}B first={self.serial_b0:#04x}")
+        d.append("issuer KU " + KU_NAMES[self.issuer_ku])
+        d.append(f"issuer alg {ALG_NAMES[self.ialg]}")
+        if self.sign_fails: d.append("signer fails")
+        return "CRL: " + "; ".join(d)
+
+
+CRL_FUNCS = ["rcgen::CertificateRevocationListParams::signed_by", "rcgen::CertificateRevocationListParams::serialize_der",
+             "rcgen::RevokedCertParams::write_der", "rcgen::CrlIssuingDistributionPoint::write_der", "rcgen::crl::write_distribution_point_name_uris",
+             "rcgen::write_x509_authority_key_identifier", "rcgen::write_x509_extension", "rcgen::KeyIdMethod::derive", "rcgen::KeyPair::sign_der",
+             "rcgen::write_dt_utc_or_generalized", "yasna::DERWriter::* (real)"]
+
+
+def crl_query(prefix, shape: CrlShape, oracles, timeout=1200):
+    from vcore import Query
+    return Query(name=f"{prefix}_crl_{shape.key()}", body=f"    crl::run(&{shape.rust(oracles)});", unwind=700, family="crl_shape",
+                 shape=shape.describe(), config=shape.config(), stubs=shape.stubs(), functions=CRL_FUNCS, timeout=timeout)
